@@ -70,6 +70,14 @@ CHECKS = {
             "Fault-style enumeration: totality (no panic) and error values in the situations the statement names, observed in a release build (wrapping would show as a non-error result) and in a build where integer overflow traps; catalogue values are also written as literal expressions so that folding inside parse_val executes every operator at parse time.",
             "Trusted: valmodel.rs for where an error value is promised; catch_unwind (an abort would kill the process and is reported by ./check as a crash).",
             "DESIGN.md 3/C17"),
+    "C18": ("runtime monitor: typed dual-number evaluator (documented int/float/bool typing, branch selection) as oracle for derivatives of value-typed piecewise expressions",
+            "Exploration: nested `f if cond else g` expressions with mixed integer/float literals are differentiated through FlatExVal and DeepEx and evaluated at float points on both sides of the branch conditions; the reference differentiates the branch selected at the point. One genuine defect class (K1, integer division in derivative constants) is carved out of the generator by predicate and kept as a fixed witness catalogue reported as KNOWN-FINDING.",
+            "Trusted: the typed evaluator in c18.rs; variables bound to Float values; conditions depend on at least one variable (the property's quantifier).",
+            "DESIGN.md 3/C18"),
+    "C19": ("runtime monitor: name -> Rust primitive reference table applied to an exhaustive special-value catalogue and random values, directly and through parsed one-operator expressions",
+            "Fault-style enumeration + exploration: all 36 operators and 6 constants of the default table for f32 and f64; every ordered pair of 37 special values per binary operator (pins argument order, NaN/inf/signed-zero behaviour), random values across magnitudes and raw bit patterns; via function pointers, FlatEx, DeepEx (infix, call, juxtaposed) and eval_str literals. Agreement = identical bits, both NaN, or <= 4 ulp in the same class.",
+            "Trusted: the independent name->primitive table in c19.rs; the zero sign of min/max is unspecified in Rust and exempt.",
+            "DESIGN.md 3/C19"),
 }
 
 PENDING = "monitor designed in DESIGN.md section 3 but not built/validated yet in this tree; not claimed until it is silent on the unchanged tree and catches seeded breaks"
